@@ -332,7 +332,8 @@ static void run_C06golden(const Args &a, long cs) {
 struct Mut { std::string name; std::vector<unsigned char> bytes; bool expect_valid = false; };
 static Spec small_spec(Rng &r) {
 	Spec s; int nd = r.range(1, 4); size_t tot = 1;
-	for (int d = 0; d < nd; d++) { unsigned o = (unsigned)r.below(5); int nk = 2 * o + 2 + (int)r.below(5); s.order.push_back(o); s.knots.push_back(gen_knots(r, o, nk, (int)r.below(4), 1.0, r.U() * 4 - 2, false)); tot *= (size_t)(nk - o - 1); }
+	bool many = r.coin(0.15); if (many) nd = r.range(5, 7); // the evaluator objects are specialised per dimension count up to 8: keep every specialisation in the battery's reach
+	for (int d = 0; d < nd; d++) { unsigned o = (unsigned)r.below(many ? 3 : 5); int nk = 2 * o + 2 + (int)r.below(many ? 2 : 5); s.order.push_back(o); s.knots.push_back(gen_knots(r, o, nk, (int)r.below(4), 1.0, r.U() * 4 - 2, false)); tot *= (size_t)(nk - o - 1); }
 	s.coef.resize(tot); for (auto &c : s.coef) c = (float)(r.U() - 0.5);
 	if (r.coin(0.3)) s.aux.push_back({"AKEY", "17"});
 	if (r.coin(0.2)) { bool eq = true; for (unsigned o : s.order) if (o != s.order[0]) eq = false; s.legacy_single_order = eq; }
